@@ -37,9 +37,10 @@
        existing theorem provides: (i) the top level is a sequence of key-value PAIRS (the release-only
        `tokens[value_ind]` site of BinaryMap::next_key_seed, Panic 9206 in the model, is reached when a
        key is the last token of the tape), (ii) payloads are real (i32 range, bytes < 256).
-     * cfg_ok for the two decoders of Encoding.v: totality is C12 (C12_w1252_spec, utf8_total);
-       "the output bytes are < 256" is not stated anywhere (needed only by the Date visitors). *)
-From JV.proofs Require Import SwarLanes NoCrashWalk NoCrashBinDe BinDeSpecProofs NoCrashTextDe.
+     * the text walk's decoder hypothesis quantifies over ALL raw scalars (also lists with elements >= 256,
+       which no reader produces); C05_decoders_return_bytes gives it for real bytes only. *)
+From JV.proofs Require Import SwarLanes NoCrashWalk NoCrashBinDe BinDeSpecProofs NoCrashTextDe NoCrashDecode.
+From JV Require Encoding.
 From JV Require Utf8 TextTok TextReader TextDeCommon TextDeStream.
 From JV Require Import Bytes Tables BinPrim BufWin BinLexer BinReader SerdeShape BinDeCommon BinDeOndemand BinDeReader.
 Open Scope nat_scope.
@@ -72,6 +73,23 @@ Theorem C05_bde_reader_never_crashes_noprop : forall cfg capv sched sh d, cfg_ok
   no_crash (deser_reader cfg capv sched sh d).
 Proof. intros cfg capv sched sh d Hc Hd Hs. apply gd2_true_elim. apply (deser_reader_ok cfg Hc true capv sched sh d Hd). auto. Qed.
 Print Assumptions C05_bde_reader_never_crashes_noprop.
+
+(* cfg_ok holds for the two decoders of Encoding.v as the flavors use them (eu4: windows-1252, raw:
+   utf-8), any strategy, any float decoders, any resolver whose names are real bytes *)
+Theorem C05_cfg_ok_real_decoders : forall res strat f32 f64 fo,
+  (forall id name, res id = Some name -> wfl name) ->
+  cfg_ok (mkcfg res strat (fun d => omap Utf8.cow_bytes (Encoding.decode_windows1252 d)) f32 f64 fo) /\
+  cfg_ok (mkcfg res strat (fun d => omap Utf8.cow_bytes (Encoding.decode_utf8 d)) f32 f64 fo).
+Proof.
+  intros res strat f32 f64 fo Hres. split; (split; [|exact Hres]); intros s Hs; cbn [c_decode].
+  - exact (decode_w1252_wfl s Hs).
+  - exact (decode_utf8_wfl s Hs).
+Qed.
+Print Assumptions C05_cfg_ok_real_decoders.
+
+Theorem C05_decoders_return_bytes : forall d, wfl d ->
+  wfl (Encoding.w1252_reference d) /\ wfl (Encoding.utf8_reference d).
+Proof. intros d Hd. split; [apply w1252_reference_wfl|apply utf8_reference_wfl]; exact Hd. Qed.
 
 (* the marker is reachable: `x = 1` into struct { x : Property<any> }, and a ShProp root *)
 Definition C05_prop_shape : shape := ShStruct false [([120]%N, None, MOnce, ShProp ShAny)].
